@@ -100,7 +100,7 @@ func checkCompositeLiteral(
 
 	typeName := named.Obj().Name()
 	pkg := named.Obj().Pkg()
-	if pkg == nil {
+	if pkg == nil || util.IsLocalType(named) {
 		return nil
 	}
 
@@ -164,7 +164,7 @@ func checkNewCall(
 
 	typeName := named.Obj().Name()
 	pkg := named.Obj().Pkg()
-	if pkg == nil {
+	if pkg == nil || util.IsLocalType(named) {
 		return nil
 	}
 
@@ -240,7 +240,7 @@ func checkVarDeclaration(
 
 			typeName := named.Obj().Name()
 			pkg := named.Obj().Pkg()
-			if pkg == nil {
+			if pkg == nil || util.IsLocalType(named) {
 				continue
 			}
 
